@@ -396,15 +396,14 @@ let run_case (line : string) : string =
       let n = read_nty t in
       ignore (next t);
       let d = retag n (read_data t) in
-      (match ser (model_ty n) d with Some v -> string_of_value v | None -> "illtyped")
+      (match ser (fun f -> f64_hex (cast_f32 f) = f64_hex f) (model_ty n) d with Some v -> string_of_value v | None -> "illtyped")
   | "de" ->
       let n = read_nty t in
       ignore (next t);
       let v = read_value t in
       (match de cast_f32 (model_ty n) v with
        | SOk d -> "ok " ^ show_data true n d
-       | SErr SData -> "err data"
-       | SErr SPanic -> "panic")
+       | SErr SData -> "err data")
   | "fromf64" ->
       let f = f64_of_bits (n_of_hex (next t)) in
       (match num_from_f64 f with None -> "-" | Some n -> string_of_value (Number n))
